@@ -24,7 +24,7 @@ from __future__ import annotations
 import ast
 import textwrap
 
-from .core import AnalysisError, NotConst, src
+from .core import AnalysisError, NotConst, clone_ast, src
 
 # ---------------------------------------------------------------------------
 # abstract values
@@ -190,6 +190,7 @@ class Child(V):
     def __init__(self, arg, lineno=0):
         self.arg = arg
         self.lineno = lineno
+        self.obj = None
 
 
 class Eval(V):
@@ -711,7 +712,7 @@ class Interp:
                 return n
         import copy
         try:
-            return src(T().visit(copy.deepcopy(test)), 4000)
+            return src(T().visit(clone_ast(test)), 4000)
         except SyntaxError:
             return src(test, 4000)
 
@@ -1002,9 +1003,16 @@ class Interp:
                 else:
                     env[base.id] = value
                 return
-            self.trace(env, Effect(
+            eff = Effect(
                 "setitem", src(target.value),
-                Tup((self.ev(target.slice, env, stack), value)), st.lineno))
+                Tup((self.ev(target.slice, env, stack), value)), st.lineno)
+            # the object written to, as the interpreter knows it (a local
+            # alias of ``self._x[-1]`` is that object)
+            try:
+                eff.obj = self.ev(target.value, env, stack)
+            except AnalysisError:
+                eff.obj = None
+            self.trace(env, eff)
             return
         if isinstance(target, ast.Attribute):
             self.trace(env, Effect("set", src(target), value, st.lineno))
